@@ -227,7 +227,7 @@ def run_parser(data, mode, regs, overridden, validate, cuts=None, file_path=None
     }
 
 
-def run_parser_resilient(data, ends, regs, overridden, validate):
+def run_parser_resilient(data, ends, regs, overridden, validate, drain=False):
     """A push parser fed element by element whose owner catches the error of a refused event and feeds on."""
     from edxml import EDXMLPushParser
     from edxml.error import EDXMLValidationError, EDXMLEventValidationError, EDXMLOntologyValidationError
@@ -260,12 +260,23 @@ def run_parser_resilient(data, ends, regs, overridden, validate):
             parser.set_event_type_handler(keys, h)
         else:
             parser.set_event_source_handler(keys, h)
-    pos = 0
-    for c in list(ends) + [len(data)]:
-        if c <= pos:
-            continue
+    if drain:
+        # the whole document in one chunk; after every refused event the owner feeds nothing (b'') to have the parser go on
+        # with what it has received already
+        chunks = [data] + [b''] * (data.count(b'</event>') + 2)
+    else:
+        chunks, pos = [], 0
+        for c in list(ends) + [len(data)]:
+            if c > pos:
+                chunks.append(data[pos:c])
+                pos = c
+    for n, chunk in enumerate(chunks):
         try:
-            parser.feed(data[pos:c])
+            parser.feed(chunk)
+            if drain and n > 0:
+                break       # nothing was pending any more
+            if drain and not errors:
+                break
         except EDXMLEventValidationError:
             errors.append('EDXMLEventValidationError')
         except EDXMLOntologyValidationError:
@@ -277,7 +288,6 @@ def run_parser_resilient(data, ends, regs, overridden, validate):
         except Exception as ex:  # noqa
             errors.append('foreign:' + type(ex).__name__)
             break
-        pos = c
     return {'log': log, 'errors': errors, 'nEvents': parser.get_event_counter(),
             'typeCount': sorted([t, parser.get_event_type_counter(t)] for t in TYPES)}
 
